@@ -295,3 +295,43 @@ Proof.
   cbv zeta. split; [|vm_compute; auto].
   repeat constructor; cbn; intuition discriminate.
 Qed.
+
+(* ---------- interleaving with other users of the counter ---------- *)
+(* Between two batches on L anything may happen to the counts of combinations OUTSIDE L (other candidate
+   lists sampled on the same storage), and the storage need not start empty outside L: fairness on L survives. *)
+Inductive reach_i (L : list key) : state -> Prop :=
+| reach_i0 st0 : (forall k, In k L -> st0 k = 0) -> reach_i L st0
+| reach_iS st cap sel st' : reach_i L st -> valid_step st L cap sel st' -> reach_i L st'
+| reach_iF st st' : reach_i L st -> (forall k, In k L -> st' k = st k) -> reach_i L st'.
+
+Lemma fair_frame L st st' : fair L st -> (forall k, In k L -> st' k = st k) -> fair L st'.
+Proof. intros [m Hm] He. exists m. intros a Ha. rewrite (He a Ha). apply Hm. exact Ha. Qed.
+
+Theorem reach_i_fair L st : NoDup L -> reach_i L st -> forall a b, In a L -> In b L -> st a <= S (st b).
+Proof.
+  intros HndL Hr.
+  assert (Hf : fair L st).
+  { induction Hr as [st0 H0|st cap sel st' _ IH V|st st' _ IH He].
+    - exists 0. intros a Ha. rewrite (H0 a Ha). lia.
+    - eapply fair_step; eassumption.
+    - eapply fair_frame; eassumption. }
+  destruct Hf as [m Hm]. intros a b Ha Hb. pose proof (Hm a Ha). pose proof (Hm b Hb). lia.
+Qed.
+
+(* ... but a foreign step that touches a combination of L (two call sites sharing one storage keyed by the
+   bare tuple — the behaviour repaired by fix 45d13a2) destroys it: one foreign increment is enough. *)
+Example shared_counter_refuted :
+  exists (L : list key) (st st' st'' : state),
+    NoDup L /\ reach L st /\ (st' 0 = st 0 + 2) /\ valid_step st' L 0 [] st'' /\ ~ (st'' 0 <= S (st'' 1)).
+Proof.
+  exists [0; 1], (fun _ => 0), (fun k => if Nat.eqb k 0 then 2 else 0), (fun k => if Nat.eqb k 0 then 2 else 0).
+  split.
+  { constructor; [cbn; intuition discriminate|]. constructor; [cbn; tauto|constructor]. }
+  split; [constructor|]. split; [reflexivity|]. split.
+  { constructor.
+    - intros k. cbn. lia.
+    - reflexivity.
+    - intros a b [].
+    - intros k. cbn. lia. }
+  cbn. lia.
+Qed.
